@@ -48,6 +48,18 @@ func (b Bonder) Bond(ctx context.Context, mutable state.Mutable, tx *chain.Trans
 	address := tx.GetSponsor()
 	addressBytes := address[:]
 
+	// A tx that is already bonded stays bonded exactly once. Bonding it again
+	// must not add its fee a second time, because only one fee is recorded per
+	// tx and Unbond releases only that recorded fee.
+	txID := tx.GetID()
+	alreadyBonded, err := b.db.Has(txID[:])
+	if err != nil {
+		return false, fmt.Errorf("failed to check tx fee: %w", err)
+	}
+	if alreadyBonded {
+		return true, nil
+	}
+
 	pendingBalance, err := b.getPendingBondBalance(addressBytes)
 	if err != nil {
 		return false, err
@@ -82,7 +94,6 @@ func (b Bonder) Bond(ctx context.Context, mutable state.Mutable, tx *chain.Trans
 		return false, err
 	}
 
-	txID := tx.GetID()
 	if err := batch.Put(txID[:], binary.BigEndian.AppendUint64(nil, fee)); err != nil {
 		return false, fmt.Errorf("failed to write tx fee: %w", err)
 	}
